@@ -34,7 +34,7 @@ Fixpoint pairwise_disjoint (l : list (Z * Z)) : Prop :=
   | [] => True
   | x :: tl => Forall (disjoint x) tl /\ pairwise_disjoint tl
   end.
-Definition pow2_size (s : Z) : Prop := s = 1 \/ s = 2 \/ s = 4 \/ s = 8.
+Definition pow2_size (s : Z) : Prop := exists k, 0 <= k /\ s = 2 ^ k.     (* 1, 2, 4, 8 and array formats like "4I" *)
 
 (* ---- ArrayMap.collect over class hierarchies ----
    A program (or subprogram instance) has the classes of its MRO, most derived
